@@ -497,7 +497,7 @@ public:
   void preadx(size_t offset, void* data, size_t size) const;
 
   inline const void* pgetv(size_t offset, size_t size) const {
-    if (offset + size > this->length) {
+    if ((size > this->length) || (offset > this->length - size)) {
       throw std::out_of_range("end of string");
     }
     return this->data + offset;
@@ -583,13 +583,13 @@ public:
   inline int32_t get_s24l(bool advance = true) { return ext24(this->get_u24l(advance)); }
 
   inline uint32_t pget_u24b(size_t offset) const {
-    if (offset + 3 > this->length) {
+    if ((this->length < 3) || (offset > this->length - 3)) {
       throw std::out_of_range("end of string");
     }
     return (this->data[offset] << 16) | (this->data[offset + 1] << 8) | this->data[offset + 2];
   }
   inline uint32_t pget_u24l(size_t offset) const {
-    if (offset + 3 > this->length) {
+    if ((this->length < 3) || (offset > this->length - 3)) {
       throw std::out_of_range("end of string");
     }
     return this->data[offset] | (this->data[offset + 1] << 8) | (this->data[offset + 2] << 16);
@@ -614,7 +614,7 @@ public:
   inline int64_t get_s48b(bool advance = true) { return ext48(this->get_u48b(advance)); }
   inline int64_t get_s48l(bool advance = true) { return ext48(this->get_u48l(advance)); }
   inline uint64_t pget_u48b(size_t offset) const {
-    if (offset + 6 > this->length) {
+    if ((this->length < 6) || (offset > this->length - 6)) {
       throw std::out_of_range("end of string");
     }
     return (static_cast<uint64_t>(this->data[offset]) << 40) |
@@ -625,7 +625,7 @@ public:
         (static_cast<uint64_t>(this->data[offset + 5]));
   }
   inline uint64_t pget_u48l(size_t offset) const {
-    if (offset + 6 > this->length) {
+    if ((this->length < 6) || (offset > this->length - 6)) {
       throw std::out_of_range("end of string");
     }
     return (static_cast<uint64_t>(this->data[offset])) |
@@ -675,7 +675,10 @@ public:
 
   template <typename T>
   void pput(size_t offset, const T& v) {
-    if (offset + sizeof(T) > this->data.size()) {
+    if ((sizeof(T) > this->data.size()) || (offset > this->data.size() - sizeof(T))) {
+      if (offset > this->data.max_size() - sizeof(T)) {
+        throw std::length_error("offset too large");
+      }
       this->data.resize(offset + sizeof(T), '\0');
     }
     memcpy(this->data.data() + offset, &v, sizeof(v));
@@ -774,7 +777,7 @@ public:
   ~BufferWriter() = default;
 
   inline void pwrite(size_t offset, const void* data, size_t size) {
-    if (offset + size > this->buf_size) {
+    if ((offset > this->buf_size) || (size > this->buf_size - offset)) {
       throw std::runtime_error("Offset out of bounds");
     }
     memcpy(this->buf + offset, data, size);
